@@ -296,12 +296,14 @@ func cmdLive(args []string) int {
 			}
 			var mu sync.Mutex
 			var seen [][2]int
+			noteRequest("util.Scatter over %d items with GOMAXPROCS %d (the fan-out every batch request goes through)", n, p)
 			_, err := util.Scatter(n, func(offset int, entries int, _ *sync.RWMutex) (any, error) {
 				mu.Lock()
 				seen = append(seen, [2]int{offset, entries})
 				mu.Unlock()
 				return nil, nil
 			})
+			requestDone()
 			if err != nil {
 				monFail = append(monFail, fmt.Sprintf("util.Scatter(%d) with GOMAXPROCS %d: %v", n, p, err))
 			}
